@@ -12,14 +12,6 @@ func reductions(n *node) []*node {
 	for _, e := range n.E {
 		out = append(out, e.clone())
 	}
-	// a function with domain 1..n is the tuple of its values (same value, simpler construction)
-	if vs, ok := n.seqValues(); ok && len(vs) > 0 {
-		t := nTup()
-		for _, v := range vs {
-			t.E = append(t.E, v.clone())
-		}
-		out = append(out, t)
-	}
 	// one element (set/tuple) or pair (function) removed
 	switch n.K {
 	case "set", "tup":
@@ -132,7 +124,7 @@ func (e *env) triage(spec caseSpec, fs []failure, role string) []finding {
 			}
 		}
 		if sp.Phase == "value" || sp.Phase == "pair" {
-			if s2, f2 := e.shrink(sp, fl.Class, 400); f2 != nil {
+			if s2, f2 := e.shrink(sp, fl.Class, 150); f2 != nil {
 				sp, fl = s2, *f2
 			}
 		}
@@ -161,7 +153,7 @@ func (e *env) triage(spec caseSpec, fs []failure, role string) []finding {
 			key += ":" + shape
 		}
 		fd := finding{Key: key, Desc: fl.Detail, Spec: sp, Fail: fl, Role: role}
-		if sp.Phase != spec.Phase || len(sp.Nodes) != len(spec.Nodes) || sp.Nodes[0] != spec.Nodes[0] {
+		if sp.Phase != spec.Phase || len(sp.Nodes) != len(spec.Nodes) || (len(sp.Nodes) > 0 && sp.Nodes[0] != spec.Nodes[0]) {
 			o := spec
 			if o.Phase == "map" { // pools are long; the shrunk case is self-contained
 				o.Nodes = nil
